@@ -430,3 +430,98 @@ def write_evidence(prop, tier, seed, coverage, assumptions, wall_s, violations, 
 
 def digest(obj):
     return hashlib.sha256(json.dumps(obj, sort_keys=True, default=str).encode()).hexdigest()[:16]
+
+
+# --------------------------------------------------------------------------
+# the standard pipeline: exhaustive TLC run on the module + trace validation
+# --------------------------------------------------------------------------
+def run_mc(spec, cfg, workers=16, timeout=3000, heap='8g', label=None):
+    """Exhaustive TLC run.  Returns (TLCResult, violations list)."""
+    r = tlc(spec, cfg, workers=workers, timeout=timeout, heap=heap)
+    viol = []
+    if not r.ok:
+        viol.append({'key': 'spec/%s/%s' % (spec, (r.violation or '?').split(' is ')[0].replace('Invariant ', '')),
+                     'what': 'TLC: %s on %s with %s' % (r.violation, spec, cfg),
+                     'payload': {'tlc_tail': r.out[-3000:], 'cmd': r.cmd}})
+    return r, viol
+
+
+def pipeline(ctx, mcs, trace_spec, records, key_of=None, what_of=None, trace_cfg=None, parallel=8,
+             nontrivial_of=None, rule='', assumptions=(), samples=3, extra_cov=None, extra_viol=(), timeout=2400, heap='6g',
+             mutator=None):
+    """mcs: list of (spec, cfg) exhaustive runs; records: trace records (dicts with id/op/in/out).
+    Returns the result dict expected by ./check."""
+    states = transitions = 0
+    viol = list(extra_viol)
+    mc_info = []
+    if not getattr(ctx, 'no_mc', False):
+        for spec, cfg in mcs:
+            r, v = run_mc(spec, cfg)
+            states += r.states
+            transitions += r.transitions
+            viol += v
+            mc_info.append({'spec': spec, 'cfg': cfg, 'distinct_states': r.states, 'states_generated': r.transitions,
+                            'wall_s': round(r.wall, 1), 'ok': r.ok})
+    verdicts, st = validate_trace(trace_spec, records, cfg=trace_cfg, parallel=parallel, timeout=timeout, heap=heap) if records else ({}, {'records': 0, 'states': 0, 'transitions': 0, 'wall': 0, 'judged_ids': []})
+    binding = None
+    if mutator and records and not getattr(ctx, 'replay', None):
+        # binding demonstration: corrupt one observed field in (up to) 3 records per operation; every
+        # corrupted record must be rejected, otherwise the trace spec is too permissive to mean anything
+        import copy
+        per = {}
+        muts = []
+        for r in records:
+            k = r.get('site', r['op']) + '/' + r['op']
+            if per.get(k, 0) >= 3 or r['id'] in verdicts:
+                continue
+            m = mutator(copy.deepcopy(r))
+            if m is not None:
+                m['id'] = 'MUT-' + r['id']
+                muts.append(m)
+                per[k] = per.get(k, 0) + 1
+        mv, _ = validate_trace(trace_spec, muts, cfg=trace_cfg, parallel=min(parallel, 4), timeout=timeout, heap=heap)
+        missed = [m['id'] for m in muts if m['id'] not in mv]
+        binding = {'mutated_records': len(muts), 'rejected': len(muts) - len(missed), 'operations': sorted(per)}
+        if missed:
+            raise MachineryError('binding demonstration failed: corrupted records accepted by %s: %s' % (trace_spec, missed[:5]))
+    byid = {r['id']: r for r in records}
+    for rid, clauses in verdicts.items():
+        rec = byid.get(rid, {'id': rid, 'op': '?'})
+        for c in clauses:
+            key = key_of(rec, c) if key_of else '%s/%s' % (rec.get('site', rec['op']), c)
+            what = what_of(rec, c) if what_of else 'record %s (%s): clause %s violated' % (rid, rec.get('site', rec['op']), c)
+            viol.append({'key': key, 'what': what, 'payload': {'record': rec, 'clause': c, 'trace_spec': trace_spec}})
+    nt = set()
+    for r in records:
+        nt.add(nontrivial_of(r) if nontrivial_of else digest([r['op'], r.get('in')]))
+    nt.discard(None)
+    ops = {}
+    for r in records:
+        ops[r.get('site', r['op'])] = ops.get(r.get('site', r['op']), 0) + 1
+    cov = {
+        'states': states + st['states'], 'transitions': transitions + st['transitions'],
+        'traces_validated_against_impl': len(records),
+        'samples': [_shorten(r) for r in records[:samples]] or ['(no records)'],
+        'evaluations': len(records), 'distinct_nontrivial': len(nt), 'rule': rule,
+        'model_checking_runs': mc_info, 'records_per_operation': ops,
+        'trace_validation': {'spec': trace_spec, 'records': len(records), 'tlc_states': st['states'], 'wall_s': round(st['wall'], 1),
+                             'records_rejected': len(verdicts)},
+        'exhaustive': False,
+    }
+    if binding:
+        cov['binding_demo'] = binding
+    if extra_cov:
+        cov.update(extra_cov)
+    return {'coverage': cov, 'assumptions': list(assumptions), 'violations': viol}
+
+
+def _shorten(o, n=6):
+    if isinstance(o, dict):
+        return {k: _shorten(v, n) for k, v in o.items()}
+    if isinstance(o, list):
+        if len(o) > n:
+            return [_shorten(v, n) for v in o[:n]] + ['... (%d items)' % len(o)]
+        return [_shorten(v, n) for v in o]
+    if isinstance(o, str) and len(o) > 60:
+        return o[:57] + '...'
+    return o
